@@ -9,8 +9,10 @@ AllScenarios == {[kind |-> "remote", step |-> st, how |-> "na", pers |-> "F"] :
                 \cup {[kind |-> "process", step |-> st, how |-> "na", pers |-> "F"] : st \in {"healthy", "exit_early"}}
 \* known finding: a one-shot backend whose target does not end by itself (pers = "L") never looks at the data connection
 LongOneShot == {[kind |-> "remote", step |-> st, how |-> h, pers |-> "L"] : st \in {"rinfo0", "rinfoM", "rinfoL"}, h \in {"fin", "rst"}}
-FixAll == {"report", "srvclose"}
+FixAll == {"report", "srvclose", "sentinelraise"}
 FixNone == {}
-FixNoReport == {"srvclose"}
-FixNoSrv == {"report"}
+FixNoReport == {"srvclose", "sentinelraise"}
+FixNoSrv == {"report", "sentinelraise"}
+FixOnlySentinel == {"sentinelraise"}             \* before the two handshake fixes
+FixNoSentinel == {"report", "srvclose"}        \* the tree as it is now
 =============================================================================
